@@ -3,9 +3,11 @@ package main
 // C12 — every stored value is normalised to one of seven kinds, consistently reported.
 
 import (
+	"fmt"
 	"go/ast"
 	"go/token"
 	"go/types"
+	"os"
 	"sort"
 	"strings"
 
@@ -22,6 +24,12 @@ func init() {
 			{ID: "C12.R1", Doc: "parseVal table: every arm maps its Go type to the constructor of the matching kind through value-preserving conversions; default panics", Run: c12R1},
 			{ID: "C12.R2", Doc: "flavour agreement: parseVal's slice/map arms = the arms of NewListFrom/NewObjectFrom, each copying element-wise through Add/Set; defaults panic", Run: c12R2},
 			{ID: "C12.R3", Doc: "kind table bijection: wrapper <-> TypeOf arm <-> Type constant in both TypeOf switches; typed getters assert Get(arg) to their result type and panic exactly on !ok", Run: c12R3},
+			{ID: "C12.R5", Doc: "the mutators store nothing but conversions, one slot per accepted value: Add appends parseVal(v) value by value (a rejected value leaves no slot behind), Set assigns parseVal(v) (= C05.R5 for Add, C06.R1)", Run: func(c *Ctx) {
+				n := runAs(c, "C12.R5", c05Sequence, func(o *Obligation) bool { return strings.Contains(o.Construct, "(*list).Add/") })
+				n += runAs(c, "C12.R5", c06Set, nil)
+				c.R.Floor("C12.R5", n, 3)
+			}},
+			{ID: "C12.R6", Doc: "NO-RAW-NIL-ON-REJECT: once zero-valued slots are in the receiver's spine no caller-supplied value is converted (parseVal may panic and leave them behind)", Run: c12R6},
 			{ID: "C12.R4", Doc: "PRODUCERS: every value stored into a spine is a parseVal/constructor result or an element of a spine; no type assertion to the field interface", Run: c12R4},
 		},
 	})
@@ -704,7 +712,7 @@ func c12R3(c *Ctx) {
 			continue
 		}
 		par := soleParam(c, fd)
-		paths, why := c.runPaths(fd)
+		paths, why := c.runPathsWith(fd, func(x *SX) { x.KeepUnboxed = true }) // TypeOf reports the kind of the wrapper itself
 		v := c.view(fd)
 		if why != "" || par == nil {
 			c.Ob("C12.R3", name, fd.Pos()).Undecided("body outside the path vocabulary: %s", why)
@@ -811,8 +819,12 @@ func typedGetterPaths(c *Ctx, gd *ast.FuncDecl, m *types.Func) string {
 	if len(paths) != 2 {
 		// Get's body spelled out instead of called (or Get itself built on a sibling): compare with Get's own paths, continued by
 		// the assertion, in the presentation that follows statically called siblings
-		if composedGetter(c, gd, m) == "" {
+		cw := composedGetter(c, gd, m)
+		if cw == "" {
 			return ""
+		}
+		if os.Getenv("ANYCHECK_DEBUG") != "" {
+			fmt.Fprintln(os.Stderr, "composedGetter", declName(gd), ":", cw)
 		}
 		return "expected exactly two outcomes (kind matches / does not match)"
 	}
@@ -866,7 +878,7 @@ func composedGetter(c *Ctx, gd *ast.FuncDecl, m *types.Func) string {
 				return nil, p.Why
 			}
 		}
-		return ps, ""
+		return pruneDecisions(c.unboxNorm(ps)), ""
 	}
 	pGet, why := run(get)
 	if why != "" {
@@ -1161,4 +1173,176 @@ func guardedByTypeTest(b *ssa.BasicBlock, v ssa.Value, impl func(types.Type) boo
 		return true
 	}
 	return up(b)
+}
+
+// c12R6 — NO-RAW-NIL-ON-REJECT. Slots reserved ahead of their conversions (`ego.val = append(ego.val, make([]field, n)...)`, then
+// `ego.val[k] = parseVal(v)` slot by slot) are raw nil fields until they are filled. In a container that existed before the call that
+// is a state a caller can come to see: parseVal panics on an unsupported value, the panic can be recovered, and the reserved slots stay
+// behind. Rule: in a method of a container, once zero-valued field slots have been put into the RECEIVER's spine (a made slice of
+// non-zero length appended to it or installed as it), no conversion of a caller-supplied value may follow on any path. Containers made
+// in the same call are exempt: a panic discards them with everything in them.
+func c12R6(c *Ctx) {
+	a := c.E3()
+	pv := a.ByName("parseVal")
+	n := 0
+	if pv == nil {
+		c.Ob("C12.R6", "parseVal", token.NoPos).Missing("parseVal not found")
+		return
+	}
+	for _, f := range a.fns {
+		if f.Signature.Recv() == nil || len(f.Params) == 0 {
+			continue
+		}
+		recv := f.Params[0]
+		pt, ok := recv.Type().(*types.Pointer)
+		if !ok {
+			continue
+		}
+		named, ok := pt.Elem().(*types.Named)
+		if !ok || c.Inv().ContOf(named) == nil {
+			continue
+		}
+		// loads of the receiver's spine
+		isRecvSpine := func(v ssa.Value) bool {
+			if u, ok := v.(*ssa.UnOp); ok && u.Op == token.MUL {
+				if fa, ok := u.X.(*ssa.FieldAddr); ok && fa.X == ssa.Value(recv) {
+					return a.isSpine(fa.Type().(*types.Pointer).Elem())
+				}
+			}
+			if sl, ok := v.(*ssa.Slice); ok {
+				if u, ok := sl.X.(*ssa.UnOp); ok && u.Op == token.MUL {
+					if fa, ok := u.X.(*ssa.FieldAddr); ok && fa.X == ssa.Value(recv) {
+						return true
+					}
+				}
+			}
+			return false
+		}
+		var creators []ssa.Instruction
+		for _, b := range f.Blocks {
+			for _, in := range b.Instrs {
+				switch x := in.(type) {
+				case *ssa.Call:
+					if bi, ok := x.Call.Value.(*ssa.Builtin); ok && bi.Name() == "append" && len(x.Call.Args) == 2 && isRecvSpine(x.Call.Args[0]) {
+						if mk, ok := x.Call.Args[1].(*ssa.MakeSlice); ok && a.isSpine(mk.Type()) {
+							if k, isK := mk.Len.(*ssa.Const); !isK || k.Int64() != 0 {
+								creators = append(creators, in)
+							}
+						}
+					}
+				case *ssa.Store:
+					if fa, ok := x.Addr.(*ssa.FieldAddr); ok && fa.X == ssa.Value(recv) {
+						if mk, ok := x.Val.(*ssa.MakeSlice); ok && a.isSpine(mk.Type()) {
+							if k, isK := mk.Len.(*ssa.Const); !isK || k.Int64() != 0 {
+								creators = append(creators, in)
+							}
+						}
+					}
+				}
+			}
+		}
+		if len(creators) == 0 {
+			continue
+		}
+		fromParam := func(v ssa.Value) bool {
+			seen := map[ssa.Value]bool{}
+			var rec func(v ssa.Value) bool
+			rec = func(v ssa.Value) bool {
+				if v == nil || seen[v] {
+					return false
+				}
+				seen[v] = true
+				switch x := v.(type) {
+				case *ssa.Parameter:
+					return x != recv
+				case *ssa.UnOp:
+					return rec(x.X)
+				case *ssa.IndexAddr:
+					return rec(x.X)
+				case *ssa.Index:
+					return rec(x.X)
+				case *ssa.Extract:
+					return rec(x.Tuple)
+				case *ssa.Next:
+					return rec(x.Iter)
+				case *ssa.Range:
+					return rec(x.X)
+				case *ssa.Lookup:
+					return rec(x.X)
+				case *ssa.Slice:
+					return rec(x.X)
+				case *ssa.MakeInterface:
+					return rec(x.X)
+				case *ssa.ChangeInterface:
+					return rec(x.X)
+				case *ssa.ChangeType:
+					return rec(x.X)
+				case *ssa.TypeAssert:
+					return rec(x.X)
+				case *ssa.Phi:
+					for _, e := range x.Edges {
+						if rec(e) {
+							return true
+						}
+					}
+				}
+				return false
+			}
+			return rec(v)
+		}
+		reach := func(from, to ssa.Instruction) bool {
+			fb, tb := from.Block(), to.Block()
+			if fb == tb {
+				fi, ti := -1, -1
+				for i, in := range fb.Instrs {
+					if in == from {
+						fi = i
+					}
+					if in == to {
+						ti = i
+					}
+				}
+				if ti > fi {
+					return true
+				}
+			}
+			seen := map[*ssa.BasicBlock]bool{}
+			work := append([]*ssa.BasicBlock(nil), fb.Succs...)
+			for len(work) > 0 {
+				b := work[0]
+				work = work[1:]
+				if seen[b] {
+					continue
+				}
+				seen[b] = true
+				if b == tb {
+					return true
+				}
+				work = append(work, b.Succs...)
+			}
+			return false
+		}
+		for k, cr := range creators {
+			n++
+			ob := c.Ob("C12.R6", "reserved-slots/"+a.FuncName(f)+"#"+itoa(k+1), cr.Pos())
+			bad := ""
+			for _, b := range f.Blocks {
+				for _, in := range b.Instrs {
+					call, ok := in.(*ssa.Call)
+					if !ok || call.Call.StaticCallee() != pv || len(call.Call.Args) != 1 {
+						continue
+					}
+					if fromParam(call.Call.Args[0]) && reach(cr, in) {
+						bad = "zero-valued slots are put into the receiver's spine and a caller-supplied value is converted afterwards (" + c.Fset.Position(in.Pos()).String() + "): when parseVal rejects it the panic leaves raw nil fields in the container"
+					}
+				}
+			}
+			if bad != "" {
+				ob.Fail("%s", bad)
+			} else {
+				ob.Ok("zero-valued slots put into the receiver's spine are followed by no conversion of a caller-supplied value")
+			}
+		}
+	}
+	c.Ob("C12.R6", "reserved-slots", token.NoPos).Ok("%d reservations of zero-valued slots in a receiver's spine examined", n)
 }
